@@ -6,6 +6,7 @@ import (
 	_ "embed"
 	"encoding/json"
 	"fmt"
+	"math/bits"
 	"sort"
 
 	"github.com/ipfs/go-cid"
@@ -186,6 +187,7 @@ type nameOpts struct {
 	NoSlash bool // exclude names containing '/'
 	FSSafe  bool // additionally exclude NUL and names the filesystem cannot hold
 	Max     int
+	Fanout  int // when set, the names only have to be separable at this fanout (else at every fanout: within 60 digest bits)
 }
 
 func nameOK(s string, o nameOpts) bool {
@@ -216,20 +218,35 @@ func genNames(t *rapid.T, o nameOpts) ([]string, []string) {
 			set[s] = true
 		}
 	}
+	usable := 60
+	sharedChoices := []int{1, 7, 8, 9, 15, 16, 24, 31, 32, 33, 40, 47, 48, 50, 54, 55, 56, 57, 58, 59}
+	if o.Fanout != 0 {
+		usable = usableBits(o.Fanout)
+		lvl := bits.Len(uint(o.Fanout)) - 1
+		// the deepest levels this fanout can address: names that only differ in the last whole level, or in its last bit
+		for _, v := range []int{usable - 1, usable - 2, usable - lvl, usable - lvl - 1} {
+			if v > 59 {
+				sharedChoices = append(sharedChoices, v, v)
+			}
+		}
+	}
 	ngroups := rapid.IntRange(0, 12).Draw(t, "ngroups")
 	for g := 0; g < ngroups && len(set) < o.Max; g++ {
 		switch rapid.IntRange(0, 11).Draw(t, "gkind") {
 		case 10, 11:
 			// hash-targeted 16-byte names sharing a drawn number of leading digest bits (<= 59: separable at every fanout)
-			shared := rapid.SampledFrom([]int{1, 7, 8, 9, 15, 16, 24, 31, 32, 33, 40, 47, 48, 50, 54, 55, 56, 57, 58, 59}).Draw(t, "sharedbits")
+			shared := rapid.SampledFrom(sharedChoices).Draw(t, "sharedbits")
 			base := rapid.Uint64().Draw(t, "hashbase")
 			k := rapid.IntRange(2, 6).Draw(t, "craftk")
-			for _, s := range craftGroup(base, shared, k, uint64(rapid.IntRange(0, 1000).Draw(t, "craftsalt"))) {
+			for _, s := range craftGroupU(base, shared, k, uint64(rapid.IntRange(0, 1000).Draw(t, "craftsalt")), usable) {
 				add(s)
 			}
 			classes["crafted"] = true
 			if shared >= 48 {
 				classes["crafted>=48bits"] = true
+			}
+			if shared >= 60 {
+				classes["crafted>=60bits"] = true
 			}
 		case 0, 1:
 			for _, s := range rapid.SliceOfN(asciiNameGen, 1, 8).Draw(t, "ascii") {
@@ -278,11 +295,14 @@ func genNames(t *rapid.T, o nameOpts) ([]string, []string) {
 			classes["bulk"] = true
 		}
 	}
-	// keep the set buildable at every fanout: names must pairwise differ within the first 60 digest bits
-	// (60 = the fewest bits any fanout 8..1024 can consume in whole levels)
+	// keep the set buildable: names must pairwise differ within the digest bits the fanout can consume in whole levels
+	// (60 = the fewest bits any fanout 8..1024 can consume, used when the fanout is not known here)
 	byPrefix := map[uint64]string{}
 	for s := range set {
-		k := murmur3.Sum64([]byte(s)) >> 4
+		k := murmur3.Sum64([]byte(s))
+		if usable < 64 {
+			k >>= uint(64 - usable)
+		}
 		if prev, ok := byPrefix[k]; !ok || s < prev {
 			byPrefix[k] = s
 		}
@@ -301,6 +321,13 @@ func genNames(t *rapid.T, o nameOpts) ([]string, []string) {
 }
 
 func genFanout(t *rapid.T) int { return 8 << rapid.IntRange(0, 7).Draw(t, "fanlg") }
+
+// genNamesFanout draws the fanout first so that the name groups can reach the deepest level that fanout can address.
+func genNamesFanout(t *rapid.T, o nameOpts) ([]string, []string, int) {
+	o.Fanout = genFanout(t)
+	names, classes := genNames(t, o)
+	return names, classes, o.Fanout
+}
 
 // ---------------------------------------------------------------- directory entries
 
